@@ -662,6 +662,10 @@ func c17Round3(c *Ctx) {
 	for _, f := range viewsNotAppendedTo(p, "lib/zipslicer") {
 		c.Check(f.OK, "R17t", f.Key, f.Pos, f.Detail, f.Detail)
 	}
+	c.Rule("R17v", "the Directory an APK digest keeps for the signing step carries the archive's own directory offset again", 1)
+	for _, f := range keptDirectoryHasItsOwnOffset(p) {
+		c.Check(f.OK, "R17v", f.Key, f.Pos, "", f.Detail)
+	}
 	c.Rule("R17u", "two narrow length fields are widened before they are added (module-wide)", 1)
 	for _, f := range sumsWidenedFirst(p) {
 		c.Check(f.OK, "R17u", f.Key, f.Pos, f.Detail, f.Detail)
